@@ -172,6 +172,60 @@ def gen_one(rng, kind, maxlen):
     raise ValueError(kind)
 
 
+# marks that continue a name: `.` `*` `/` `%` (IDContinue, not name characters themselves) and the name characters that
+# double as operators / sit at the end of a table range (`-` `+` `_` `$` `^`)
+NAME_MARKS = [ord(c) for c in '.*/%-+_$^']
+
+
+def _sep(rng):
+    """1-3 marks; never `//` `/*` `/=` (comment / operator starts end a name), never ending in `/`+nothing"""
+    while True:
+        t = [rng.choice(NAME_MARKS) for _ in range(rng.choice([1, 1, 2, 2, 3]))]
+        if any(t[i] == 0x2F and t[i + 1] in (0x2F, 0x2A) for i in range(len(t) - 1)):
+            continue
+        return t
+
+
+def _marked_name(rng, kwglyphs=False):
+    """letters joined by marks: 进价.-折扣  a/-b  甲_乙%丙 ; optionally led by a mark that may start a name"""
+    pool = LETTERS + DIGITS + (KW_GLYPHS if kwglyphs else [])
+    out = [rng.choice([0x2D, 0x2B, 0x5F, 0x24])] if rng.random() < 0.15 else []
+    out += [rng.choice(LETTERS)] + [rng.choice(pool) for _ in range(rng.randint(0, 2))]
+    for _ in range(rng.randint(1, 3)):
+        out += _sep(rng) + [rng.choice(pool) for _ in range(rng.randint(0, 2))] + [rng.choice(LETTERS)]
+    return out
+
+
+def gen_marked(rng):
+    """a text of names with marks inside (bare, or between back-ticks — then keyword glyphs are name characters too),
+    separated by keywords; every piece starts and ends with a letter, so the documented segmentation (spec:segmentq) is
+    defined on it"""
+    out = []
+    if rng.random() < 0.4:
+        out += _kw(rng)
+    for i in range(rng.randint(1, 3)):
+        if i:
+            out += _kw(rng)
+        if rng.random() < 0.35:
+            out += [0x60] + _marked_name(rng, kwglyphs=rng.random() < 0.5) + [0x60]
+        else:
+            out += _marked_name(rng)
+    if rng.random() < 0.3:
+        out += _kw(rng)
+    return tuple(out)
+
+
+def marked_exhaustive():
+    """every name  L m1 [m2] L  and its back-ticked form, alone and after a keyword"""
+    out = []
+    seps = [[a] for a in NAME_MARKS] + [[a, b] for a in NAME_MARKS for b in NAME_MARKS if not (a == 0x2F and b in (0x2F, 0x2A))]
+    for sp in seps:
+        core = [0x7532] + sp + [0x4E59]
+        out += [tuple(core), tuple([0x60] + core + [0x60]), tuple([0x4EE4] + core + [0x8BBE, 0x4E3A, 0x31]),
+                tuple([0x4EE4, 0x60] + core + [0x60, 0x8BBE, 0x4E3A, 0x31])]
+    return out
+
+
 def gen_sources(rng, n, kind, maxlen=12):
     """n generated sources (tuples of code points) of the given kind:
     random | segment | comments | strings | indent | mixed (an even mix of all)"""
@@ -218,14 +272,14 @@ def run_go_retry(ctx, cases):
     return go
 
 
-def lex_compare(ctx, stream, sources, sample=2, segment_spec=False):
+def lex_compare(ctx, stream, sources, sample=2, segment_spec=False, spec_op='spec:segment'):
     """runs `lex` on Go and on the model for every source; records disagreements; returns (cases, go answers).
     segment_spec: the sources are over keyword glyphs and plain name characters only — the token part of Go's answer
     must equal the documented greedy segmentation (`spec:segment`, Spec/Segment.lean)"""
     cases = ['lex ' + cps(t) for t in sources]
     go = run_go_retry(ctx, cases)
     model = ctx.run_lean(cases)
-    spec = ctx.run_lean(['spec:segment ' + cps(t) for t in sources]) if segment_spec else None
+    spec = ctx.run_lean([spec_op + ' ' + cps(t) for t in sources]) if segment_spec else None
     for i, (c, g, m) in enumerate(zip(cases, go, model)):
         ctx.evaluations += 1
         cl = classify(g)
@@ -288,6 +342,13 @@ def run_lex_stream(ctx):
     near_all = near + [[0x7532] + t + [0x4E59] for t in near] + [t + [0x6B21, 0x6570] for t in near]
     lex_compare(ctx, 'lex-keyword-near-miss', near_all, segment_spec=True)
     ctx.streams.append({'stream': 'lex-keyword-near-miss', 'cases': len(near_all)})
+    # names with marks inside (`.` `*` `/` `%` continue a name; `-` `+` `_` are name characters when not followed by a space):
+    # bare and back-ticked, exhaustive over one and two marks between two letters, then random
+    marked = marked_exhaustive()
+    marked += list(dict.fromkeys(gen_marked(rng) for _ in range(n // 10)))
+    lex_compare(ctx, 'lex-marked-names', marked, segment_spec=True, spec_op='spec:segmentq')
+    ctx.streams.append({'stream': 'lex-marked-names', 'cases': len(marked)})
+    run_lex_pairs(ctx, marked, n // 10)
     # random over the whole alphabet, and the structured kinds
     plan = [('random', n * 5 // 10), ('segment', n // 10), ('comments', n // 10), ('strings', n * 15 // 100),
             ('indent', n * 15 // 100)]
@@ -296,3 +357,41 @@ def run_lex_stream(ctx):
         srcs = list(dict.fromkeys(srcs))
         lex_compare(ctx, 'lex-' + kind, srcs, segment_spec=(kind == 'segment'))
         ctx.streams.append({'stream': 'lex-' + kind, 'cases': len(srcs), 'maxlen': maxlen})
+
+
+def run_lex_pairs(ctx, marked, n):
+    """two texts lexed one after the other in ONE process (`lex2`): the answer for the second must be the documented
+    segmentation of the second alone — nothing the first text made the lexer look up may change it. First texts: a name
+    followed by a stray character that is not a name character (rejected, or a mark) for every gap of the identifier table;
+    second texts: begin with the name character just below that gap. Then random pairs of marked-name texts."""
+    rng = ctx.rng
+    bits = ''.join(a[3:] for a in ctx.run_lean(['spec:idrange %d %d' % (lo, min(lo + 8192, 0x10000)) for lo in range(0, 0x10000, 8192)]))
+    ends = [c for c in range(0x21, 0xFFFF) if bits[c] == '1' and bits[c + 1] == '0']
+    kwg = set(KW_GLYPHS)
+    pairs = []
+    for e in ends:
+        if e == 0x6CE8 or 0x30 <= e <= 0x39:
+            continue
+        first = (0x7532, e + 1)
+        for second in ((e, 0x7532), (0x4EE4, e, 0x8BBE, 0x4E3A, 0x37), (0x7532, e)):
+            if e == 0x25 and second[0] != 0x7532:
+                continue        # `%` is the remainder operator wherever a token starts
+            pairs.append((first, second))
+    ctx.count('lex_pairs_table_gaps', len(pairs))
+    for _ in range(n):
+        pairs.append((rng.choice(marked) + ((rng.choice([0x7E, 0x3002, 0x5C, 0x2E, 0x2F]),) if rng.random() < 0.5 else ()), rng.choice(marked)))
+    pairs = list(dict.fromkeys(pairs))
+    cases = ['lex2 %s %s' % (cps(a), cps(b)) for a, b in pairs]
+    go = run_go_retry(ctx, cases)
+    model = ctx.run_lean(cases)
+    spec = ctx.run_lean(['spec:segmentq ' + cps(b) for _, b in pairs])
+    for c, g, m, sp in zip(cases, go, model, spec):
+        ctx.evaluations += 1
+        if g != m:
+            ctx.disagreement('lex-pairs', c, g, m)
+        second = g.split(' ;; ')[1] if ' ;; ' in g else g
+        if second.split(' |')[0] != sp:
+            ctx.violation('lex-pairs', c, g, '… ;; ' + sp)
+        ctx.nontriv(c)
+    ctx.sample({'op': cases[0], 'go': go[0][:160], 'model': model[0][:160]})
+    ctx.streams.append({'stream': 'lex-pairs', 'cases': len(cases)})
